@@ -15,6 +15,11 @@ CLAIMED = {
             "boundary lattice + seeded random for 64/128-bit, every rotation count 0..2w+1, under GCC intrinsics, GCC generic and Clang builds with UBSan traps attributed per input.",
             "DESIGN.md §4 C18", None),
 }
+CLAIMED["C06"] = ("E-overflow", "Every tagged +,-,*,/,<<, unary -, conversion (integer and floating sources), compound assignment and ++/-- over all 10x10 pairs of 8..128-bit signed/unsigned operand types and the three checked tags, "
+                  "through _impl::operate, convert<> and overflow_integer, executed on exhaustive 8x8-bit pairs, boundary lattices, bound-solved operand pairs and all shift counts; each outcome (value / throw polarity / abort message) compared with the exact 256-bit result "
+                  "against the C++ result type, on the GCC-intrinsic and the portable (Clang, or forced by hook H2) detection paths.", "DESIGN.md §4 C06", None)
+CLAIMED["C07"] = ("E-overflow", "Same executions as C06 under ASan+UBSan(trap)+float-cast-overflow with the CNL abort hook: any trap, fatal signal, internal-error abort, foreign exception or hang on an in-domain operand is attributed to its input and reported.",
+                  "DESIGN.md §4 C07", "UBSan/ASan trap monitoring with per-input attribution (sigsetjmp executor + CNL abort hook)")
 PLANNED = {}
 
 
